@@ -50,6 +50,10 @@ def run(chk) -> None:
         "solver faults surface as pulp.PulpSolverError or as a non-optimal status (the fault model of the property statement)",
         "structures need at most 30 bracket levels",
     ]
+    chk.robust |= {"attr-kind", "solve-handled", "handler-no-raise", "fallback-is-fcfs", "readback-after-optimal", "value-before-optimal", "solver-none-guard", "returns-dotbracket", "never-raises"}
+    from checks import c01 as _c01
+
+    chk.robust |= _c01.ROBUST
     conv = repo.func(MOD, f"{CLS}.convert_to_dot_bracket")
     dotb = repo.func(MOD, f"{CLS}.dot_bracket")
     fcfs = repo.func(MOD, f"{CLS}.fcfs")
@@ -131,6 +135,35 @@ def run(chk) -> None:
             f"`{norm(rb)}` can be reached with a non-optimal solver status: variable values are read from an unsolved model",
             key=f"{MOD}:{conv.qualname}:readback-unguarded:{norm(rb)}",
         )
+    # solution values used as numbers (formatting with a spec, arithmetic, int()/float()/round(), ordering) are None on an
+    # unsolved model: such a use must be dominated by the Optimal test as well
+    par = astq.parents(conv.node)
+    for n in ast.walk(conv.node):
+        is_val = isinstance(n, ast.Call) and (astq.dotted(n.func) in ("pulp.value", "value") or (isinstance(n.func, ast.Attribute) and n.func.attr == "value" and not n.args and "objective" in norm(n.func.value)))
+        if not is_val:
+            continue
+        p = par.get(id(n))
+        numeric = None
+        if isinstance(p, ast.FormattedValue) and p.format_spec is not None and norm(p.format_spec) not in ("f''", "f'!s'"):
+            numeric = f"formatted with spec {norm(p.format_spec)}"
+        elif isinstance(p, ast.BinOp):
+            numeric = "used in arithmetic"
+        elif isinstance(p, ast.Call) and astq.callee_name(p) in ("int", "float", "round", "abs") and n in p.args:
+            numeric = f"passed to {astq.callee_name(p)}()"
+        elif isinstance(p, ast.Compare) and any(isinstance(o, (ast.Lt, ast.LtE, ast.Gt, ast.GtE)) for o in p.ops):
+            numeric = "compared by order"
+        st = fm.stmt_of(n)
+        fs = facts(fm.expr_guards(st, n) or fm.of(st).guards)
+        dominated = any(is_optimal_fact(g) for g in fs)
+        if numeric and not dominated:
+            chk.violation(
+                "value-before-optimal",
+                conv.site(n),
+                f"`{norm(n)}` is {numeric} on a path where the status may be non-optimal: the value is None for an unsolved/infeasible model and the expression raises TypeError instead of falling back to FCFS",
+                key=f"{MOD}:{conv.qualname}:value-unguarded:{norm(n)}",
+            )
+        else:
+            chk.ok("value-before-optimal", conv.site(n), f"`{norm(n)}` is " + ("reached only with an optimal status" if dominated else "not used as a number"))
     # the branch taken when status is not optimal returns FCFS
     status_ifs = [
         st
